@@ -7,6 +7,7 @@
 #include "msa_alloc.h"
 #define MSA_OP_IMPORT
 #include "msa_op.h"
+#include "kalign_verif.h"
 
 static int aln_unknown_warning_message_gaps_but_len_diff(struct msa *msa);
 static int aln_unknown_warning_message_same_len_no_gaps(void);
@@ -174,6 +175,7 @@ int detect_alphabet(struct msa* msa)
         /* } */
         /* LOG_MSG("DNA: %f PROT: %f",dna_prob,prot_prob); */
 
+        KALIGN_VERIF_EVENT(KV_EV_DETECT_TABLES, DNA, protein, 0, 0, 0);
         dna_prob = 0.0;
         prot_prob = 0.0;
         for(i = 0; i < 128;i++){
@@ -185,6 +187,7 @@ int detect_alphabet(struct msa* msa)
 
         /* LOG_MSG("DNA: %f PROT: %f",dna_prob,prot_prob); */
         /* exit(0); */
+        KALIGN_VERIF_EVENT(KV_EV_DETECT_SUMS, &dna_prob, &prot_prob, 0, 0, 0);
         if( dna_prob == prot_prob){
                 WARNING_MSG("Could not determine whether we have a DNA or Protein alignment");
                 msa->L = ALPHA_UNKNOWN;
